@@ -1,6 +1,6 @@
 \* intended: pointer semantics = value semantics, independence, parents closed; all histories <= 4 over <= 3 trees
 CONSTANTS DeepCopyRebindsParents = TRUE CopyHookBoundToCopy = TRUE FlattenCopiesTop = FALSE
-          Universe = "full" MaxTrees = 3 MaxOps = 4
+          Lib = "flat" Universe = "full" MaxTrees = 3 MaxOps = 4
 INIT Init
 NEXT Next
 VIEW ViewFull
